@@ -103,7 +103,14 @@ def reference(nfiles, edges, ids, mapped, usable=lambda a, b: True):
                 m = np.array([0, 0, 2, 3]) if (a, b) in mapped else \
                     np.arange(N)
                 if r is None:
-                    unconstrained.add(b)
+                    # everything behind an unchecked edge is unconstrained
+                    todo = [b]
+                    while todo:
+                        x = todo.pop()
+                        if x in unconstrained:
+                            continue
+                        unconstrained.add(x)
+                        todo += [bb for (aa, bb) in edges if aa == x]
                     continue
                 if not r or b in path:
                     continue
